@@ -259,6 +259,68 @@ func (sp *Specs) loadFile(repo, file string) error {
 			} else {
 				sp.Lemmas = append(sp.Lemmas, l)
 			}
+		case "accessor":
+			// accessor get|set|del|has (Recv) Func Store(keyexpr, ...) [valueexpr]
+			m := regexp.MustCompile(`^(get|set|del)\s+\(\s*(\w+)\s*\)\s+(\w+)\s+(\w+)\(([^)]*)\)\s*(.*)$`).FindStringSubmatch(r.text)
+			if m == nil {
+				return fmt.Errorf("%s:%d: bad accessor decl %q", file, r.line, r.text)
+			}
+			kind, recv, fname, store, keys, val := m[1], m[2], m[3], m[4], strings.TrimSpace(m[5]), strings.TrimSpace(m[6])
+			ct := &Contract{Pkg: pkgPath, Recv: recv, Func: fname, Loops: map[string]*LoopSpec{}, File: file, Line: r.line, Props: map[string]bool{}}
+			ct.Key = pkgPath + "." + recv + "." + fname
+			idx := store
+			hasArgs := store
+			if keys != "" {
+				idx = store + "[" + keys + "]"
+				hasArgs = store + ", " + keys
+			} else {
+				idx = "get(" + store + ")"
+			}
+			add := func(list *[]*Clause, text string) error {
+				c, err := mk(r, text)
+				if err != nil {
+					return err
+				}
+				*list = append(*list, c)
+				return nil
+			}
+			var err error
+			switch kind {
+			case "get":
+				ct.Results = []string{"val", "found"}
+				if err = add(&ct.Ensures, "found == has("+hasArgs+")"); err == nil {
+					err = add(&ct.Ensures, "found ==> val == "+idx)
+				}
+			case "set":
+				if keys != "" {
+					err = add(&ct.Modifies, idx)
+				} else {
+					err = add(&ct.Modifies, store)
+				}
+				if err == nil {
+					err = add(&ct.Ensures, "has("+hasArgs+")")
+				}
+				if err == nil {
+					err = add(&ct.Ensures, idx+" == "+val)
+				}
+			case "del":
+				if keys != "" {
+					err = add(&ct.Modifies, idx)
+				} else {
+					err = add(&ct.Modifies, store)
+				}
+				if err == nil {
+					err = add(&ct.Ensures, "!has("+hasArgs+")")
+				}
+			}
+			if err != nil {
+				return err
+			}
+			if _, dup := sp.Contracts[ct.Key]; dup {
+				return fmt.Errorf("%s:%d: duplicate contract for %s", file, r.line, ct.Key)
+			}
+			sp.Contracts[ct.Key] = ct
+			cur = ct
 		case "func":
 			m := regexp.MustCompile(`^(?:\(\s*\*?(\w+)\s*\)\s*)?(\w+)\s*(?:\(([^)]*)\))?\s*(?:\(([^)]*)\))?\s*$`).FindStringSubmatch(r.text)
 			if m == nil {
